@@ -338,8 +338,10 @@ def longToTD (x : Int) : TD :=
 
 /-! ## Decimal fields (`decimal_places = dc`) -/
 
-/-- `prepare_number` on a `Decimal`: `int(Decimal(x) * 10 ** dc)` (truncation towards zero),
-    then the range check. -/
+/-- `prepare_number` on a field with `decimal_places = dc`: `int(Decimal(x) * 10 ** dc)` (truncation
+    towards zero), then the range check.  `q` is the number the argument denotes: a `Decimal`, a
+    string, an `int` or (through its `repr`) a `float` — every form is scaled (the round-4 `fix:`
+    commit; before it an `int`/`float` was taken as the already scaled integer). -/
 def decimalToInt (dc : Nat) (q : Rat) : Int :=
   let y := q * ((10 : Int) ^ dc : Int)
   Int.tdiv y.num y.den
@@ -349,5 +351,19 @@ def prepareDecimal (n : Nat) (signed : Bool) (dc : Nat) (q : Rat) : Except Err I
 
 /-- `unprepare_number`: `Decimal(x).scaleb(-dc)` (the `fix:` commit), i.e. `x / 10^dc`. -/
 def unprepareDecimal (dc : Nat) (x : Int) : Rat := (x : Rat) / (((10 : Int) ^ dc : Int) : Rat)
+
+/-- `NumericRange._compile_query` on a Decimal field (`decimal_places = dc`, `numtype` is `int`):
+    both bounds go through `prepare_number` (scaled and truncated towards zero, then range-checked),
+    then `tiered_ranges` on the scaled integers and one sub-query per range, exactly as on an
+    integer field (`query/ranges.py:NumericRange._compile_query`, `fields.py:NUMERIC.prepare_number`). -/
+def compileDecimal (w : Nat) (signed : Bool) (step dc : Nat) (start end_ : Option Rat)
+    (startexcl endexcl : Bool) : Except Err (List Sub) := do
+  let s ← match start with
+    | none => pure none
+    | some q => (prepareDecimal (8 * w) signed dc q).map some
+  let e ← match end_ with
+    | none => pure none
+    | some q => (prepareDecimal (8 * w) signed dc q).map some
+  compileRanges w (tieredInt (8 * w) signed s e step startexcl endexcl)
 
 end WM.Numeric
